@@ -302,7 +302,7 @@ func c02Class(n gnode, got, want string) string {
 
 func c02Cfgs(kind string, full bool) []gnode {
 	var out []gnode
-	syms := []string{"", "&", "&&"}
+	syms := []string{"", "&", "&&", "vel"}
 	delims := []string{""}
 	if kind == "LIST" {
 		syms = []string{""}
@@ -335,7 +335,7 @@ func c02Trees(c *Ctx) []gnode {
 		return gnode{T: "leaf", V: v}
 	}
 	cond := func(kw string, op int, ex gnode) gnode { return gnode{T: "cond", Kw: kw, Op: op, Kids: []gnode{ex}} }
-	leaves := []gnode{lf("a"), lf("b c"), lf(" x "), lf(""), lf("é"), lf("日本"), lf("a\tb"), lf(7), lf(2.5), lf(true)}
+	leaves := []gnode{lf("a"), lf("b c"), lf(" x "), lf(""), lf("é"), lf("日本"), lf("a\tb"), lf(7), lf(2.5), lf(true), lf("l1\nl2"), lf("東京\u3000都"), lf("n\u00a0b\rc")}
 	small := []gnode{lf("a"), lf("é x"), lf(""), lf(7)}
 	kinds := []string{"AND", "OR", "NOT", "LIST"}
 	with := func(cfg gnode, kids ...gnode) gnode { cfg.Kids = kids; return cfg }
@@ -354,7 +354,7 @@ func c02Trees(c *Ctx) []gnode {
 		}
 	}
 	childStacks = append(childStacks, gnode{T: "stack", Kind: "BASIC", Kids: []gnode{lf("hidden")}}, gnode{T: "stack", Kind: "AND", AsType: "alias", Kids: []gnode{lf("al"), lf("ias")}})
-	conds := []gnode{cond("k", 1, lf("v")), cond("", 1, lf("v")), cond("k", 9, lf("v")), cond("n", 6, lf(7)), cond("k", 2, lf("日本 語")),
+	conds := []gnode{cond("k", 1, lf("v")), cond("", 1, lf("v")), cond("k", 9, lf("v")), cond("n", 6, lf(7)), cond("k", 2, lf("日本 語")), cond("k\u00a0w", 2, lf("v\nw")),
 		cond("s", 3, gnode{T: "stack", Kind: "OR", Kids: []gnode{lf("a"), lf("b")}}),
 		{T: "cond", Kw: "p", Op: 4, Paren: true, Enc: 1, Kids: []gnode{lf("q")}}, {T: "cond", Kw: "p", Op: 5, NoPad: true, Paren: true, Kids: []gnode{lf("q")}},
 		cond("e", 1, lf(""))}
